@@ -15,6 +15,7 @@ var patchProfiles = []gen.Profile{
 	gen.PDefault, gen.PTiny, gen.PDeep, gen.PNulls,
 	gen.PHostile,
 	gen.PHostile.With(func(p *gen.Profile) { p.Keys = append(append([]string{}, gen.KeysHostile...), gen.KeysNumberish...) }),
+	gen.PNumbers,
 }
 
 // unexpressible: the diff mentions a key JSON Pointer cannot carry
